@@ -248,61 +248,7 @@ def run(pm, ctx):
               msg='route ordering is no longer (name, version)', key='C02-R3|%s' % rlt.qualname)
 
     # ---------------- R4
-    for q, inner, rec_attr, kinds in (
-            (API + '.ApiNamespace.linearize_data_types', 'add_data_type', 'parent_type',
-             {'Struct', 'Union'}),
-            (API + '.ApiNamespace.linearize_aliases', 'add_alias', 'data_type', None)):
-        f = pm.func(q)
-        g = f.nested.get(inner)
-        if not ctx.check('C02-R4', g is not None, '%s has its recursive helper' % f.short, f.loc,
-                         msg='%s lost its recursive helper' % f.short,
-                         key='C02-R4|%s|helper' % q):
-            continue
-        paths = [p for p in enumerate_paths(g.node)]
-        good = True
-        n_app = n_rec = 0
-        for p in paths:
-            calls = path_calls(p)
-            app = [c for c in calls if isinstance(c.func, ast.Attribute) and
-                   c.func.attr == 'append']
-            rec = [c for c in calls if call_name(c) == inner]
-            if app:
-                n_app += 1
-                # the seen-test must have been evaluated (negative) on the path
-                good &= any('seen' in unparse(e) and isinstance(e, ast.Compare) and not pol
-                            for e, pol in p.atoms)
-                n_rec += bool(rec)
-                for r in rec:
-                    good &= r._ord < app[0]._ord and rec_attr in unparse(r.args[0])
-        # (the helper recurses on some appending path: hoisting one level from the driver loop
-        # leaves a grandparent behind its grandchild)
-        ctx.check('C02-R4', good and n_app >= 1 and n_rec >= 1,
-                  '%s: seen-test, then recursion on .%s, then append (%d appending paths)' % (
-                      f.short, rec_attr, n_app), g.loc,
-                  msg='%s no longer places the %s before its dependant' % (f.short, rec_attr),
-                  key='C02-R4|%s|order' % q)
-        # the recursion is taken for every kind that has a parent / for alias targets
-        recs = [c for c in own_nodes(g.node) if isinstance(c, ast.Call) and call_name(c) == inner]
-        if kinds is not None and len(recs) == 1:
-            cls = reaching_classes(pm, irf, g, recs[0], 'data_type', universe=frozenset(kinds))
-            ctx.check('C02-R4', cls == kinds,
-                      '%s hoists the parent of structs and unions alike' % f.short, g.loc,
-                      msg='%s hoists parents only for %s' % (f.short, sorted(cls)),
-                      key='C02-R4|%s|kinds' % q)
-        elif kinds is None:
-            pi = path_info(g.node)
-            ok = len(recs) == 1 and [(unparse(e), pol) for e, pol in pi.at(recs[0])
-                                     if 'is_alias' in unparse(e)] == [
-                                         ('is_alias(alias.data_type)', True)]
-            ctx.check('C02-R4', ok, '%s hoists an alias target that is itself an alias' % f.short,
-                      g.loc, msg='%s hoists alias targets under another condition' % f.short,
-                      key='C02-R4|%s|kinds' % q)
-        drv = [l for l in own_nodes(f.node) if isinstance(l, ast.For)]
-        ctx.check('C02-R4', len(drv) == 1 and unparse(drv[0].iter) in ('self.data_types',
-                                                                      'self.aliases'),
-                  '%s walks the whole registry' % f.short, f.loc,
-                  msg='%s no longer walks the whole registry' % f.short,
-                  key='C02-R4|%s|driver' % q)
+    linearize_order(pm, ctx, irf)
 
     # ---------------- R5
     af = pm.func(IRM + '.Struct.all_fields')
@@ -563,6 +509,67 @@ def run(pm, ctx):
     mutation.run(pm, ctx, 'C02-MU', OWN['C02'])
     from .. import grammar
     grammar.run(pm, ctx, 'C02-GR', which=('GR2','GR3'))
+
+
+def linearize_order(pm, ctx, irf, rule='C02-R4'):
+    """linearize_data_types / linearize_aliases place every parent (alias target) before its
+    dependant: seen-test, recursion on the whole chain, then append."""
+    for q, inner, rec_attr, kinds in (
+            (API + '.ApiNamespace.linearize_data_types', 'add_data_type', 'parent_type',
+             {'Struct', 'Union'}),
+            (API + '.ApiNamespace.linearize_aliases', 'add_alias', 'data_type', None)):
+        f = pm.func(q)
+        g = f.nested.get(inner)
+        if not ctx.check(rule, g is not None, '%s has its recursive helper' % f.short, f.loc,
+                         msg='%s lost its recursive helper' % f.short,
+                         key='%s|%s|helper' % (rule, q)):
+            continue
+        paths = [p for p in enumerate_paths(g.node)]
+        good = True
+        n_app = n_rec = 0
+        for p in paths:
+            calls = path_calls(p)
+            app = [c for c in calls if isinstance(c.func, ast.Attribute) and
+                   c.func.attr == 'append']
+            rec = [c for c in calls if call_name(c) == inner]
+            if app:
+                n_app += 1
+                # the seen-test must have been evaluated (negative) on the path
+                good &= any('seen' in unparse(e) and isinstance(e, ast.Compare) and not pol
+                            for e, pol in p.atoms)
+                n_rec += bool(rec)
+                for r in rec:
+                    good &= r._ord < app[0]._ord and rec_attr in unparse(r.args[0])
+        # (the helper recurses on some appending path: hoisting one level from the driver loop
+        # leaves a grandparent behind its grandchild)
+        ctx.check(rule, good and n_app >= 1 and n_rec >= 1,
+                  '%s: seen-test, then recursion on .%s, then append (%d appending paths)' % (
+                      f.short, rec_attr, n_app), g.loc,
+                  msg='%s no longer places the %s before its dependant' % (f.short, rec_attr),
+                  key='%s|%s|order' % (rule, q))
+        # the recursion is taken for every kind that has a parent / for alias targets
+        recs = [c for c in own_nodes(g.node) if isinstance(c, ast.Call) and call_name(c) == inner]
+        if kinds is not None and len(recs) == 1:
+            cls = reaching_classes(pm, irf, g, recs[0], 'data_type', universe=frozenset(kinds))
+            ctx.check(rule, cls == kinds,
+                      '%s hoists the parent of structs and unions alike' % f.short, g.loc,
+                      msg='%s hoists parents only for %s' % (f.short, sorted(cls)),
+                      key='%s|%s|kinds' % (rule, q))
+        elif kinds is None:
+            pi = path_info(g.node)
+            ok = len(recs) == 1 and [(unparse(e), pol) for e, pol in pi.at(recs[0])
+                                     if 'is_alias' in unparse(e)] == [
+                                         ('is_alias(alias.data_type)', True)]
+            ctx.check(rule, ok, '%s hoists an alias target that is itself an alias' % f.short,
+                      g.loc, msg='%s hoists alias targets under another condition' % f.short,
+                      key='%s|%s|kinds' % (rule, q))
+        drv = [l for l in own_nodes(f.node) if isinstance(l, ast.For)]
+        ctx.check(rule, len(drv) == 1 and unparse(drv[0].iter) in ('self.data_types',
+                                                                      'self.aliases'),
+                  '%s walks the whole registry' % f.short, f.loc,
+                  msg='%s no longer walks the whole registry' % f.short,
+                  key='%s|%s|driver' % (rule, q))
+
 
 
 def ir_helper_contracts(pm, ctx, rule='C02-R12'):
